@@ -320,3 +320,120 @@ M('c14-sync-budget-one-more-than-declared', 'C14', 'R15', S, _BUD, "        self
 # negative controls verified by hand with --root (silent): `sys.maxsize if max_stream_len is None else max_stream_len`;
 # `limit = max_stream_len` / `if limit is None: limit = sys.maxsize` / `max(limit, 0)`; `int(max_stream_len)`; a guard
 # `if max_stream_len < 0: raise ValueError`
+
+# =======================================================================================================================
+# clauses added after the auto-mutation sweep (seeds sa-am005xx-007xx / sa-am031xx-034xx): first-order mutants
+# =======================================================================================================================
+
+# ----------------------------------------------------------------------- R2 the source gate: EOF is marked, the gate asks until served
+_EOF1 = "        if chunk_len == 0:\n            # NOTE(vytas): The EOF.\n            self._max_bytes_remaining = 0\n            return b''\n"
+_EOF2 = "            if chunk_len == 0:\n                # NOTE(vytas): The EOF.\n                self._max_bytes_remaining = 0\n                return result.getvalue()\n"
+M('c14-am-sync-eof-first-chunk-not-marked', 'C14', 'R2', S, _EOF1, "        if chunk_len == 0:\n            return b''\n")          # sa-am03148
+M('c14-am-sync-eof-refill-not-marked', 'C14', 'R2', S, _EOF2, "            if chunk_len == 0:\n                return result.getvalue()\n")          # sa-am03237
+M('c14-am-sync-eof-budget-decremented-not-zeroed', 'C14', 'R2', S, _EOF1,
+  "        if chunk_len == 0:\n            self._max_bytes_remaining -= 1\n            return b''\n")
+M('c14-am-sync-gate-one-byte-never-read', 'C14', 'R2', S, "        if size <= 0:\n            return b''\n\n        chunk", "        if size <= 1:\n            return b''\n\n        chunk")          # sa-am03231
+M('c14-am-sync-gate-refill-stops-one-short', 'C14', 'R2', S, "            if size <= 0:\n                return result.getvalue()",
+  "            if size <= 1:\n                return result.getvalue()")          # sa-am03343
+M('c14-am-sync-gate-returns-after-second-read', 'C14', 'R2', S, "            self._max_bytes_remaining -= chunk_len\n            result.write(chunk)\n",
+  "            self._max_bytes_remaining -= chunk_len\n            result.write(chunk)\n            return result.getvalue()\n")
+
+# ----------------------------------------------------------------------- R4 eof is the conjunction of {source exhausted} and {buffer drained}
+_EOF = "return self._exhausted and self._buffer_len == self._buffer_pos"
+M('c14-am-async-eof-disjunction', 'C14', 'R4', A, _EOF, "return self._exhausted or self._buffer_len == self._buffer_pos")          # sa-am00614
+M('c14-am-async-eof-drain-negated', 'C14', 'R4', A, _EOF, "return self._exhausted and self._buffer_len != self._buffer_pos")
+M('c14-am-async-eof-not-exhausted', 'C14', 'R4', A, _EOF, "return not self._exhausted and self._buffer_len == self._buffer_pos")
+
+# ----------------------------------------------------------------------- R1 the cached length moves with the buffer; a pending chunk is spliced unless empty
+M('c14-am-async-prepend-len-not-updated', 'C14', 'R1', A,          # sa-am00581
+  "            self._buffer = chunk + self._buffer[self._buffer_pos :]\n            self._buffer_len = len(self._buffer)\n",
+  "            self._buffer = chunk + self._buffer[self._buffer_pos :]\n")
+_SPLICE = "                self._buffer_len = self._buffer_len - self._buffer_pos + next_chunk_len\n                self._buffer_pos = 0\n"
+M('c14-am-sync-finalize-splice-len-not-updated', 'C14', 'R1', S, _SPLICE, "                self._buffer_pos = 0\n")          # sa-am03287
+M('c14-am-sync-finalize-splice-len-chunk-subtracted', 'C14', 'R1', S, _SPLICE,          # sa-am03361
+  "                self._buffer_len = self._buffer_len - self._buffer_pos - next_chunk_len\n                self._buffer_pos = 0\n")
+M('c14-am-sync-finalize-drops-one-byte-chunk', 'C14', 'R1', S, "        if next_chunk_len > 0:\n", "        if next_chunk_len > 1:\n")          # sa-am03282
+M('c14-am-sync-finalize-splices-only-behind-consumed-bytes', 'C14', 'R1', S,
+  "            else:\n                self._buffer = self._buffer[self._buffer_pos :] + next_chunk\n",
+  "            elif self._buffer_pos > 0:\n                self._buffer = self._buffer[self._buffer_pos :] + next_chunk\n")
+
+# ----------------------------------------------------------------------- R10 / R7 (shared with C13) more data is fetched only after the search has provably failed
+_FOUND = "                delimiter_pos = self._buffer.find(delimiter, self._buffer_pos)\n                if delimiter_pos >= 0:\n"
+M('c14-am-sync-found-test-skips-zero', 'C14', 'R10', S, _FOUND, _FOUND.replace('>= 0', '> 0'), also=['C13'])          # sa-am03371
+M('c14-am-sync-found-test-from-one', 'C14', 'R10', S, _FOUND, _FOUND.replace('>= 0', '>= 1'), also=['C13'])          # sa-am03394
+M('c14-am-sync-found-test-not-zero', 'C14', 'R10', S, _FOUND, _FOUND.replace('>= 0', '!= 0'), also=['C13'])
+M('c14-am-async-buffered-found-test-skips-one', 'C14', 'R7', A, "            if pos > 0:\n                if 0 < size_hint < pos - self._buffer_pos:",
+  "            if pos > 1:\n                if 0 < size_hint < pos - self._buffer_pos:", also=['C13'])          # sa-am00692
+M('c14-am-async-in-loop-found-test-from-one', 'C14', 'R7', A, "            if pos >= 0:  # pragma: no py39,py310 cover\n                if pos > 0:",
+  "            if pos >= 1:  # pragma: no py39,py310 cover\n                if pos > 0:", also=['C13'])
+
+# ----------------------------------------------------------------------- R8 the iteration ends with the cursor at the match
+M('c14-am-async-in-loop-found-at-one-not-yielded', 'C14', 'R8', A, "            if pos >= 0:  # pragma: no py39,py310 cover\n                if pos > 0:",
+  "            if pos >= 0:  # pragma: no py39,py310 cover\n                if pos > 1:")          # sa-am00737
+M('c14-am-async-in-loop-found-stops-one-short', 'C14', 'R8', A, "                    self._buffer_pos = pos\n                    yield self._buffer[:pos]\n",
+  "                    self._buffer_pos = pos - 1\n                    yield self._buffer[: pos - 1]\n")
+
+# ----------------------------------------------------------------------- R6 (shared with C13 R7) a fragment match is translated to a buffer position
+M('c14-am-sync-border-match-offset-subtracted', 'C14', 'R6', S, "                        delimiter_pos + offset,\n", "                        delimiter_pos - offset,\n", also=['C13'])          # sa-am03402
+M('c14-am-sync-border-match-offset-dropped', 'C14', 'R6', S, "                        delimiter_pos + offset,\n", "                        delimiter_pos,\n", also=['C13'])
+
+# ----------------------------------------------------------------------- R16 peek(): the window [cursor, cursor + n), n by the size partition
+_NORM = "        if size < 0 or size > self._chunk_size:\n            size = self._chunk_size\n\n"
+_SP = _NORM + "        if self._buffer_len - self._buffer_pos < size:"
+_AP = _NORM + "        if self._buffer_pos > 0:"
+M('c14-am-sync-peek-default-zero', 'C14', 'R16', S, "    def peek(self, size: int = -1) -> bytes:", "    def peek(self, size: int = -0) -> bytes:")          # sa-am03245
+M('c14-am-sync-peek-conjunction', 'C14', 'R16', S, _SP, _SP.replace('size < 0 or size >', 'size < 0 and size >'))          # sa-am03159
+M('c14-am-sync-peek-oversize-not-clamped', 'C14', 'R16', S, _SP, _SP.replace('size < 0 or size > self._chunk_size', 'size < 0'))          # sa-am03160
+M('c14-am-sync-peek-negative-not-normalised', 'C14', 'R16', S, _SP, _SP.replace('size < 0 or size > self._chunk_size', 'size > self._chunk_size'))          # sa-am03161
+M('c14-am-sync-peek-normalisation-dropped', 'C14', 'R16', S, _SP, _SP.replace('            size = self._chunk_size\n', '            pass\n'))          # sa-am03162
+M('c14-am-sync-peek-from-buffer-start', 'C14', 'R16', S, "return self._buffer[self._buffer_pos : self._buffer_pos + size]", "return self._buffer[: self._buffer_pos + size]")
+M('c14-am-sync-peek-refill-test-flipped', 'C14', 'R16', S, "        if self._buffer_len - self._buffer_pos < size:\n            self._fill_buffer()",
+  "        if self._buffer_len - self._buffer_pos > size:\n            self._fill_buffer()")
+M('c14-am-async-peek-default-zero', 'C14', 'R16', A, "    async def peek(self, size: int = -1) -> bytes:", "    async def peek(self, size: int = -0) -> bytes:")          # sa-am00670
+M('c14-am-async-peek-zero-is-a-chunk', 'C14', 'R16', A, _AP, _AP.replace('size < 0 or', 'size <= 0 or'))          # sa-am00671 / sa-am00728
+M('c14-am-async-peek-negative-not-normalised', 'C14', 'R16', A, _AP, _AP.replace('size < 0 or size > self._chunk_size', 'size > self._chunk_size'))          # sa-am00603
+M('c14-am-async-peek-normalisation-dropped', 'C14', 'R16', A, _AP, _AP.replace('            size = self._chunk_size\n', '            pass\n'))          # sa-am00604
+M('c14-am-async-peek-trim-skipped-at-one', 'C14', 'R16', A, _AP, _AP.replace('self._buffer_pos > 0', 'self._buffer_pos > 1'), also=['C13'])          # sa-am00675
+M('c14-am-async-peek-loop-left-while-short', 'C14', 'R16', A, "                if self._buffer_len >= size:  # pragma: no py39,py310 cover\n                    break",
+  "                if self._buffer_len <= size:  # pragma: no py39,py310 cover\n                    break")          # sa-am00730
+
+# ----------------------------------------------------------------------- R17 None is normalised before it meets a number
+_AREAD = "        return await self._read_from(self._iter_with_buffer(size_hint=size or 0), size)\n"
+M('c14-am-async-read-none-hint-and', 'C14', 'R17', A, _AREAD, _AREAD.replace('size or 0', 'size and 0'))          # sa-am00744
+M('c14-am-async-read-none-hint-raw', 'C14', 'R17', A, _AREAD, _AREAD.replace('size_hint=size or 0', 'size_hint=size'))          # sa-am00745
+M('c14-am-sync-normalize-orders-before-none-test', 'C14', None, S, "if size is None or size < 0 or size > max_size:", "if size < 0 or size is None or size > max_size:")
+
+# ----------------------------------------------------------------------- R18 collecting loops: countdown, running total, backlog
+M('c14-am-sync-pipe-until-leaves-last-byte', 'C14', 'R18', S, "        while remaining > 0:\n", "        while remaining > 1:\n")          # sa-am03328
+M('c14-am-async-read-big-stops-one-short', 'C14', 'R18', A,          # sa-am00727
+  "            result_bytes.write(chunk)\n            remaining -= chunk_len\n            if remaining == 0:",
+  "            result_bytes.write(chunk)\n            remaining -= chunk_len\n            if remaining == 1:")
+M('c14-am-async-read-stops-one-short', 'C14', 'R18', A,
+  "                result.append(chunk)\n                remaining -= chunk_len\n                if remaining == 0:",
+  "                result.append(chunk)\n                remaining -= chunk_len\n                if remaining == 1:")
+M('c14-am-sync-readlines-total-starts-at-one', 'C14', 'R18', S, "        read = 0\n        result = []\n", "        read = 1\n        result = []\n")          # sa-am03226
+M('c14-am-sync-readlines-total-overcounts', 'C14', 'R18', S, "                read += len(line)\n", "                read += len(line) + 1\n")
+M('c14-am-sync-finalize-backlog-dropped-at-one', 'C14', 'R18', S, "        if have_bytes == 0:\n            # PERF(vytas): Do not join bytes unless needed.",
+  "        if have_bytes == 1:\n            # PERF(vytas): Do not join bytes unless needed.")          # sa-am03281
+M('c14-am-sync-backlog-total-ignores-cursor', 'C14', 'R18', S, "            have_bytes += self._buffer_len - self._buffer_pos\n", "            have_bytes += self._buffer_len\n")
+
+# ----------------------------------------------------------------------- R10 (shared with C13 R6) a pending look-ahead chunk: no second fetch; border searched
+_ENOUGH = "            if have_bytes + self._buffer_len - self._buffer_pos >= size:\n"
+M('c14-am-sync-enough-test-cursor-added', 'C14', 'R10', S, _ENOUGH, "            if have_bytes + self._buffer_len + self._buffer_pos >= size:\n", also=['C13'])          # sa-am03382
+M('c14-am-sync-enough-test-cursor-ignored', 'C14', 'R10', S, _ENOUGH, "            if have_bytes + self._buffer_len >= size:\n", also=['C13'])
+_BORDER = "            if delimiter_len_1 > 0:\n                offset"
+M('c14-am-sync-border-skipped-for-two-bytes', 'C14', 'R10', S, _BORDER, "            if delimiter_len_1 > 1:\n                offset", also=['C13'])          # sa-am03376
+M('c14-am-sync-border-only-without-backlog', 'C14', 'R10', S, _BORDER, "            if delimiter_len_1 > 0 and have_bytes == 0:\n                offset", also=['C13'])
+M('c14-am-sync-border-lookahead-one-short', 'C14', 'R10', S, "next_chunk[:delimiter_len_1]", "next_chunk[: delimiter_len_1 - 1]", also=['C13'])
+# not decided (no clause): readlines(hint) `hint >= 0` -> `hint > 0` / `hint >= 1` (sa-am03340, sa-am03385): whether a hint of 0 is a limit or "no limit" is
+# fixed by the reference cursor only, not by the surrounding arithmetic (io.IOBase.readlines treats 0 as "no limit", this reader does not)
+# negative controls verified by hand with --root (all silent, C14 and C13): found-test as `!= -1` / `> -1` / `found = pos >= 0; if found:` / in-loop
+# `if pos != -1: if pos >= 1:` / `if pos >= 0 and pos == self._buffer_pos: return`; `while remaining >= 1` / `while not remaining <= 0`; peek with a local
+# `n = chunk_size if ... else size` + `start = self._buffer_pos`, `min(size, chunk_size)` in an else arm, `<= -1` / `>= chunk_size + 1`, a nested slice
+# `buf[pos:][:size]`, an unconditional _fill_buffer() / _trim_buffer(), `data = self._buffer[:n]; return data` behind the loop; eof with swapped operands /
+# two returns / `not (len - pos)`; gate `size < 1`, `if not chunk:` with the budget zeroed, the gate rewritten as one `while size > 0` loop; _prepend_buffer
+# with an arithmetic length update in front of the store; `if next_chunk_len:` / `>= 1`; `self._buffer_len = len(self._buffer)` after the splice; read() with
+# `hint = 0 if size is None else size`, a None guard inside _iter_with_buffer; `if not remaining:` / `remaining <= 0`; readlines with a renamed total and
+# `total = total + len(line)`; `if not have_bytes:` / `have_bytes <= 0` / always joining the backlog; `offset + delimiter_pos`, by keyword; the enough-test
+# through a local `avail`; border guard `if delimiter_len_1:` / `len(delimiter) > 1` / `if True`; every `x op= y` rewritten as `x = x op y`.
+# `return bytes(self._buffer[...])` in peek is an unknown idiom (exit 2)
